@@ -6,6 +6,7 @@ import SeqVerif.Extracted.C16
 Driver for C16.  IDs are `mid.rid`; lists are `,`-separated, `-` = empty.
 
   shard <calls>                         calls `;`-separated: `f` | `w` | `u` | `r<n|w|u|f>:<total>:<nerr>:<ids>`
+  shardp <p0.p1...> <calls>             the same with ShuffleReplicas: replicas asked in the order p0, p1, ...
   stores <arrival>                      arrival `|`-separated `<shard>=<calls>` in arrival order
   search <hot> <cold> <offset> <size> <rev 0|1> <src 0|1>
   less <ids> <a> <b>                    ids / a / b : `mid.rid@src#hint`
@@ -43,10 +44,15 @@ def parseCall (s : String) : Option Call :=
 
 def parseCalls (s : String) : Option (List Call) := (splitList s ";").mapM parseCall
 
+/-- `<shard>=<calls>` (replicas asked in index order) or `<shard>~p0.p1.p2=<calls>` (asked in the order p0, p1, ...) -/
 def parseArrival (s : String) : Option (List (Nat × ShardRes)) :=
   (splitList s "|").mapM fun e =>
     match e.splitOn "=" with
-    | [i, calls] => do pure ((← i.toNat?), searchShard (← parseCalls calls))
+    | [i, calls] =>
+      match i.splitOn "~" with
+      | [i] => do pure ((← i.toNat?), searchShard (← parseCalls calls))
+      | [i, perm] => do pure ((← i.toNat?), searchShardP (← natList? perm ".") (← parseCalls calls))
+      | _ => none
     | _ => none
 
 def fmtID (i : ProxySearch.ID) : String := s!"{i.1}.{i.2}"
@@ -143,6 +149,10 @@ def step (line : String) : String :=
     match parseCalls calls with
     | some cs => fmtShard (searchShard cs)
     | none => "bad-op"
+  | ["shardp", perm, calls] =>
+    match natList? perm ".", parseCalls calls with
+    | some p, some cs => fmtShard (searchShardP p cs)
+    | _, _ => "bad-op"
   | ["stores", arr] =>
     match parseArrival arr with
     | some a => fmtStores (searchStores a)
